@@ -220,6 +220,12 @@ func c19Requests(r *rand.Rand, w *world.World, h int64) *world.Requests {
 	tok := func() common.Address {
 		return []common.Address{tokBTC, tokGOAT, tokX, tokUnk}[r.Intn(4)]
 	}
+	maddr := func() common.Address { // relayer membership requests aim at real members most of the time
+		if r.Intn(4) > 0 && len(w.Members) > 0 {
+			return common.BytesToAddress(w.Members[r.Intn(len(w.Members))].Addr)
+		}
+		return addr()
+	}
 	n := r.Intn(6)
 	for i := 0; i < n; i++ {
 		switch r.Intn(14) {
@@ -257,9 +263,9 @@ func c19Requests(r *rand.Rand, w *world.World, h int64) *world.Requests {
 		case 12:
 			var h32 common.Hash
 			r.Read(h32[:])
-			q.Relayer.Adds = append(q.Relayer.Adds, &goattypes.AddVoterRequest{Voter: addr(), Pubkey: h32})
+			q.Relayer.Adds = append(q.Relayer.Adds, &goattypes.AddVoterRequest{Voter: maddr(), Pubkey: h32})
 		case 13:
-			q.Relayer.Removes = append(q.Relayer.Removes, &goattypes.RemoveVoterRequest{Voter: addr()})
+			q.Relayer.Removes = append(q.Relayer.Removes, &goattypes.RemoveVoterRequest{Voter: maddr()})
 		}
 	}
 	q.Gas = amt()
@@ -290,7 +296,12 @@ func c19Requests(r *rand.Rand, w *world.World, h int64) *world.Requests {
 func c19Case(c *vc.Ctx, idx int) {
 	r := world.NewRand(c.Seed, "c19", idx)
 	w, err := world.New(world.Config{Seed: c.Seed, Label: fmt.Sprintf("c19-%d", idx), NVals: 2, NRelayers: 3,
-		Relayer: func(g *relayertypes.GenesisState) { g.Params.ElectingPeriod = 10 * time.Minute },
+		Relayer: func(g *relayertypes.GenesisState) {
+			g.Params.ElectingPeriod = 10 * time.Minute
+			if idx%2 == 1 {
+				g.Params.ElectingPeriod = 24 * time.Second // elections apply the queued membership changes every eighth block
+			}
+		},
 		Locking: func(g *lockingtypes.GenesisState) {
 			g.Params.UnlockDuration = 3 * time.Second
 			g.Params.ExitingDuration = 6 * time.Second
@@ -328,6 +339,7 @@ func c19Case(c *vc.Ctx, idx int) {
 	viol := func(sig, detail string, rep any) {
 		c.Violation(sig, fmt.Sprintf("height %d: %s", ch.Height, detail), rep)
 	}
+	squeeze := 0
 	bm := newBridgeModel(c.Seed, w.BtcKey)
 	b0, err := ch.Step(world.StepOpts{Reqs: &world.Requests{Bridge: bridgeReqs(bm.withdrawRequests(12))}})
 	if err != nil {
@@ -426,6 +438,17 @@ func c19Case(c *vc.Ctx, idx int) {
 		h := ch.Height + 1
 		t := ch.Now.Add(3 * time.Second)
 		reqs := c19Requests(r, w, h)
+		if idx%2 == 1 && (blk == 1 || blk == 2 || blk == 4) {
+			// membership squeeze inside the first epoch: the proposer is removed first, then one voter after the other in
+			// later blocks; the last request would empty the group and must be ignored, and the election must go through
+			order := append([]*world.Member{g.Proposer}, g.Voters...)
+			if squeeze < len(order) && order[squeeze] != nil {
+				reqs = &world.Requests{Gas: big.NewInt(1)} // nothing else in the list, so that the block message applies it
+				reqs.Relayer.Removes = append(reqs.Relayer.Removes, &goattypes.RemoveVoterRequest{Voter: common.BytesToAddress(order[squeeze].Addr)})
+				c.Count("membership_squeeze_requests", 1)
+			}
+			squeeze++
+		}
 		if blk%3 == 0 {
 			// a well-behaved block now and then, so that both hand-over queues are non-empty when hostile payloads arrive
 			reqs = &world.Requests{Gas: big.NewInt(1000)}
